@@ -23,4 +23,13 @@ def argMax (x : α) (xs : List α) : Nat :=
   (xs.foldl (fun (acc : α × Nat × Nat) v => if acc.1 < v then (v, acc.2.2, acc.2.2 + 1) else (acc.1, acc.2.1, acc.2.2 + 1))
     (x, 0, 1)).2.1
 
+/-- rows of the peak pin tables: one row per assembly that has pin temperatures, labelled with the assembly's own number
+(`_fmt_idx(i) = i + 1`), in core order.  `hasPin[i]` says whether assembly `i` tracks pin peaks. -/
+def pinRowLabels (hasPin : List Bool) : List Nat :=
+  (List.range hasPin.length).filterMap fun i => if hasPin.getD i false then some (i + 1) else none
+
+/-- the labelling of a seeded change: running number among the assemblies WITH pins -/
+def pinRowLabelsRunning (hasPin : List Bool) : List Nat :=
+  (List.range (hasPin.filter id).length).map (· + 1)
+
 end Dassh.Model.Peaks
